@@ -126,7 +126,13 @@ def abstract_rows(facts, body, g, raw_rows):
                     if isinstance(lab, tuple) and lab[0] == 'case':
                         d.atoms['rtype'] = [k for k, v in rt.items() if v == lab[1]][0]
                     else:
-                        d.atoms['rtype'] = 'other(not %s)' % ",".join(sorted(k for k, v in rt.items() if v in lab[1]))
+                        # exclusions accumulate over successive switches on the record type
+                        old = d.atoms.get('rtype')
+                        excl = set(k for k, v in rt.items() if v in lab[1])
+                        if isinstance(old, str) and old.startswith('other(not '):
+                            excl |= set(old[len('other(not '):-1].split(','))
+                        if not (isinstance(old, str) and not old.startswith('other(not ')):
+                            d.atoms['rtype'] = 'other(not %s)' % ",".join(sorted(excl))
                     hit = True
                 elif x[0] == 'call' and x[1].endswith("cmp_input_streams"):
                     if isinstance(lab, tuple) and lab[0] == 'case':
